@@ -209,8 +209,34 @@ func mineBranch(m *mon.M, a *hnet.Activity, k int, zoneOnly bool, wit map[string
 	return out, true
 }
 
+// accumulations: the largest number of inbound coinbase ETXs executed by one block of the branch
+func accumulations(br []*hnet.Mined) int {
+	max := 0
+	for _, mm := range br {
+		n := 0
+		for _, tx := range mm.Blocks[2].Transactions() {
+			if tx.Type() == types.ExternalTxType && tx.EtxType() == types.CoinbaseType {
+				n++
+			}
+		}
+		if n > max {
+			max = n
+		}
+	}
+	return max
+}
+
 func scenario(m *mon.M, r *rand.Rand, idx int) {
-	a, err := hnet.NewActivity(r, hnet.Options{IndexAddressUtxos: true})
+	// every third scenario pays the miner's coinbases into lockup records held by an owner contract and adds
+	// own work shares, so that blocks accumulate several times into one record (multi-entry undo lists)
+	lockup := idx%3 == 2
+	var a *hnet.Activity
+	var err error
+	if lockup {
+		a, err = hnet.NewActivityLockup(r, hnet.Options{IndexAddressUtxos: true, MinerPreference: 0.0001}, uint8(r.Intn(4)), 1+r.Intn(2))
+	} else {
+		a, err = hnet.NewActivity(r, hnet.Options{IndexAddressUtxos: true})
+	}
 	if err != nil {
 		m.Violation("harness-start", err.Error(), nil)
 		return
@@ -218,7 +244,10 @@ func scenario(m *mon.M, r *rand.Rand, idx int) {
 	defer a.N.Stop()
 	a.QiPerStep = 3
 	a.ConvEvery = 2
-	wit := map[string]any{"scenario": idx}
+	wit := map[string]any{"scenario": idx, "lockup_contract_coinbases": lockup}
+	if lockup {
+		wit["lockup_byte"], wit["shares_per_block"] = a.N.Opts.CoinbaseLockup, a.Shares
+	}
 	prefixLen := 30 + r.Intn(14)
 	prefix, ok := mineBranch(m, a, prefixLen, false, wit, "prefix")
 	if !ok {
@@ -230,6 +259,28 @@ func scenario(m *mon.M, r *rand.Rand, idx int) {
 	}
 	for round := 0; round < 2; round++ {
 		zoneOnly := r.Intn(2) == 0
+		// fork at a prime-order head (always in the lockup scenarios, else half of the time): the coinbase and
+		// conversion ETXs it releases are then executed by the first blocks of BOTH branches, so the abandoned
+		// branch contains lockup accumulations / conversion mints that the rollback has to undo
+		primeFork := lockup || r.Intn(2) == 0
+		if primeFork {
+			pad, ok := mineBranch(m, a, 3, true, wit, "pad")
+			if !ok {
+				return
+			}
+			prefix = append(prefix, pad...)
+			pm, err := a.Step(hnet.MineOpts{WantOrder: 0})
+			if err != nil {
+				m.Violation("block-rejected-on-branch", "prime-order fork block: "+err.Error(), wit)
+				return
+			}
+			prefix = append(prefix, pm)
+			if err := a.N.Settle(); err != nil {
+				m.Violation("settle-failed", "fork block: "+err.Error(), wit)
+				return
+			}
+		}
+		wit["fork_at_prime_block"] = primeFork
 		ancestor := a.N.Heads()
 		ka, kb := 1+r.Intn(6), 1+r.Intn(6)
 		wit["round"], wit["zone_only_branches"], wit["depth_a"], wit["depth_b"] = round, zoneOnly, ka, kb
@@ -257,7 +308,8 @@ func scenario(m *mon.M, r *rand.Rand, idx int) {
 		tipsB := a.N.Heads()
 		viewB := view(a.N.Zone().DB, tipsB[2].Hash())
 		// a fresh node that is only ever given the winning branch
-		fresh, err := hnet.New(hnet.Options{IndexAddressUtxos: true, GenAllocs: a.N.Opts.GenAllocs, QuaiCoinbase: a.N.Opts.QuaiCoinbase, QiCoinbase: a.N.Opts.QiCoinbase})
+		fresh, err := hnet.New(hnet.Options{IndexAddressUtxos: true, GenAllocs: a.N.Opts.GenAllocs, QuaiCoinbase: a.N.Opts.QuaiCoinbase, QiCoinbase: a.N.Opts.QiCoinbase,
+			CoinbaseLockup: a.N.Opts.CoinbaseLockup, LockupContract: a.N.Opts.LockupContract, MinerPreference: a.N.Opts.MinerPreference})
 		if err != nil {
 			m.Inconclusive("fresh node did not start: " + err.Error())
 			return
@@ -292,6 +344,14 @@ func scenario(m *mon.M, r *rand.Rand, idx int) {
 				m.Violation("reorged-node-differs-from-fresh-node:"+classOf(d[0]), fmt.Sprintf("%d differences (first = reorged node, second = fresh node that only saw the winning branch): %v", len(d), max), wit)
 			}
 			cls := fmt.Sprintf("reorg:a%d:b%d:zoneOnly=%v", ka, kb, zoneOnly)
+			if lockup {
+				nrec := len(hnet.AllLockups(fresh.Zone().DB))
+				m.AddExtra("lockup_records_compared", int64(nrec))
+				m.AddExtra("own_shares_ground", int64(a.SharesFound))
+				if nrec > 0 && accumulations(brA) >= 2 {
+					m.Eval("reorg-over-contract-lockup-accumulations", fmt.Sprintf("%d/%d/%x", idx, round, tipsB[2].Hash()))
+				}
+			}
 			m.Eval(cls, fmt.Sprintf("%d/%d/%x", idx, round, tipsB[2].Hash()))
 			if idx < 3 {
 				m.Sample(map[string]any{"case": wit, "keys_compared": len(viewF.kv)})
